@@ -6,4 +6,5 @@
 //@include units/wcet.rs
 //@include units/wcet_cache.rs
 //@include units/demand.rs
+//@include units/lemmas_wcet.rs
 fn main() {}
